@@ -678,7 +678,7 @@ def harness_opts(o):
 
 def run_file_batch(res, ctx, cases, keep=False):
     st = ctx["stats"]
-    d = os.path.join(common.BUILD, "run", "questrade", "s%d" % ctx["seed"])
+    d = os.path.join(common.BUILD, "run", "questrade", "s%d-%d" % (ctx["seed"], os.getpid()))
     os.makedirs(d, exist_ok=True)
     hc = []
     for i, c in enumerate(cases):
@@ -823,7 +823,7 @@ def run(res, ctx):
     init_ctx(ctx)
     q = tier == "quick"
     run_sheet_batch(res, ctx, corpus())
-    n_mem = 2100 if q else 14000
+    n_mem = 2100 if q else 40000
     batch = 700
     done = 0
     while done < n_mem:
@@ -835,7 +835,7 @@ def run(res, ctx):
                           "layout2": gen_layout(rng), "sort": rng.random() < 0.7, "wf": activities_well_formed(acts)})
         run_sheet_batch(res, ctx, cases)
         done += len(cases)
-    n_file = 400 if q else 3000
+    n_file = 400 if q else 8000
     fcases = []
     for _ in range(n_file):
         wf = rng.random() < 0.75
@@ -852,6 +852,10 @@ def run(res, ctx):
     ctx["batch"] = "p"
     run_file_batch(res, ctx, bcases, keep=True)
     run_binary(res, ctx, bcases)
+    try:
+        os.rmdir(os.path.join(common.BUILD, "run", "questrade", "s%d-%d" % (ctx["seed"], os.getpid())))
+    except OSError:
+        pass
     finish(res, ctx)
 
 
